@@ -700,8 +700,20 @@ impl<'a> Searcher<'a> {
 
                                         if file_type.is_symlink() {
                                             if let Ok(resolved) = std::fs::read_link(&path) {
-                                                ok = true;
-                                                path = resolved;
+                                                // a relative target is relative to the directory
+                                                // that holds the link, not to the working directory
+                                                let resolved = match path.parent() {
+                                                    Some(parent) if resolved.is_relative() => {
+                                                        parent.join(resolved)
+                                                    }
+                                                    _ => resolved,
+                                                };
+
+                                                // links to anything but a directory are only listed
+                                                if resolved.is_dir() {
+                                                    ok = true;
+                                                    path = resolved;
+                                                }
                                             }
                                         } else if file_type.is_dir() {
                                             ok = true;
